@@ -119,6 +119,9 @@ fn random_tree(rng: &mut Rng, nonce: &mut u64, depth: u32, budget: &mut i32, exi
 pub fn gen_plan(rng: &mut Rng, variant: u64, tier: Tier, only_commit_and_log_tail: bool) -> Plan {
 	let (cfg, kind) = config(rng, variant);
 	let mut pools: Vec<Vec<Vec<u8>>> = vec![];
+	// "burst" histories of the reindex layout: one transaction inserts so many keys of one index
+	// page (sharing 17-18 hash bits) that a SINGLE log record grows the index by several steps
+	let burst = kind == "reindex" && rng.chance(1, 2);
 	for c in &cfg.cols {
 		let n = rng.range(6, 20) as usize;
 		if c.multitree {
@@ -126,10 +129,12 @@ pub fn gen_plan(rng: &mut Rng, variant: u64, tier: Tier, only_commit_and_log_tai
 		} else if c.uniform && cfg.salt == Some([0u8; 32]) {
 			// > 64 keys in one 16-bit index page: forces growth 16 -> 17/18
 			let hot = rng.below(1 << 16);
-			let n = tier.pick(rng.range(70, 90), rng.range(80, 140)) as usize;
+			let n = if burst { rng.range(140, 270) as usize } else { tier.pick(rng.range(70, 90), rng.range(80, 140)) as usize };
+			let extra = if burst { rng.range(1, 2) } else { 0 };
+			let sub = rng.below(1 << extra);
 			let mut p = vec![];
 			while p.len() < n {
-				let rest = rng.next() >> 17;
+				let rest = (rng.next() >> (17 + extra)) | (sub << (47 - extra));
 				let prefix = (hot << 48) | rest;
 				let mut k = prefix.to_be_bytes().to_vec();
 				k.extend_from_slice(&rng.bytes(24));
@@ -149,6 +154,7 @@ pub fn gen_plan(rng: &mut Rng, variant: u64, tier: Tier, only_commit_and_log_tai
 	let reindex = kind == "reindex";
 	let mut mood = rng.below(4);
 	let mut queued = 0usize;
+	let mut burst_pending = burst;
 	// every third history starts with a scripted "log recycling" prefix: two flushed log
 	// files, the first one applied and reclaimed, its file reused for a NEWER record while the
 	// older file is still pending - so that file-id order differs from record order when both
@@ -208,6 +214,15 @@ pub fn gen_plan(rng: &mut Rng, variant: u64, tier: Tier, only_commit_and_log_tai
 							tx.push(Op::RefTree(c, rng.pick(&live).clone()));
 						} else if !live.is_empty() {
 							tx.push(Op::DerefTree(c, rng.pick(&live).clone()));
+						}
+					} else if burst_pending && o.uniform && !o.ref_counted && !acts.is_empty() && rng.chance(1, 3) {
+						burst_pending = false;
+						let mut ks = pools[c as usize].clone();
+						rng.shuffle(&mut ks);
+						ks.truncate(rng.range(130, ks.len() as u64) as usize);
+						for k in ks {
+							let v = if o.preimage { gen::value_for_key(&k, false) } else { rng.bytes_in(0, 40) };
+							tx.push(Op::Set(c, k, v));
 						}
 					} else {
 						let n = if reindex { rng.range(4, 12) } else { rng.range(1, 5) } as usize;
